@@ -398,6 +398,13 @@ impl BoundsAnalyzer {
             let Some(bounds) = self.variable_bounds.get(name).copied() else {
                 continue;
             };
+            if bounds.lower == f64::INFINITY || bounds.upper == f64::NEG_INFINITY {
+                // Propagation over an infeasible model can push a bound past every
+                // finite value. No number lies in such a range, so it is not a
+                // usable domain. Keep the declared one: the original constraint
+                // rows will report infeasibility at solve time.
+                continue;
+            }
             let tightened_type = match variable.get_type() {
                 VariableType::Boolean => VariableType::Boolean,
                 VariableType::IntegerRange(_, _) => {
